@@ -132,3 +132,17 @@ def run(sess: Session):
     sess.extra['paths_explored'] = n_paths
     from contracts import coreflows
     coreflows.run_scope_flows(sess, PROP)
+    # the storage half of the argument: every row is stored under the lexicon that owns it (row images shared with
+    # C01), and no library function answers from a fresh default Wordnet instead of the one it was given
+    from contracts import addchecks, infra
+    addchecks.run_row_images(sess, PROP)
+    for ob in infra.scope_site_obligations(PROP):
+        sess.check(ob)
+    # S itself: the lexicon / lang arguments select what docs/guides/lexicons.rst says (find_lexicons, shared with C08)
+    from contracts import C08 as _c08
+    try:
+        for ob in _c08.deductive_obligations():
+            ob.prop = PROP
+            sess.check(ob)
+    except Unsupported as exc:
+        sess.unsupported('wn._queries.find_lexicons', str(exc))
